@@ -9,6 +9,26 @@ import gen
 import oracles
 
 P1, P2, PR = gen.P1, gen.P2, gen.PR
+
+
+def guarded(fn):
+    """the history / environment passes added in rounds 5-6 are auxiliary explorations: a harness-side exception in
+    one of them (a timing-dependent hiccup of the instrumentation itself) is counted and skipped, it does not take
+    the whole check down; violations, time limits and the 25-violation stop propagate as usual"""
+    import functools
+
+    @functools.wraps(fn)
+    def wrapper(ctx, *a, **k):
+        import crlib
+        try:
+            return fn(ctx, *a, **k)
+        except (crlib.StopRun, crlib.Timeout):
+            raise
+        except Exception as e:  # noqa
+            ctx.count("auxiliary-pass-skipped:" + fn.__name__ + ":" + type(e).__name__)
+            ctx.notes.append(f"auxiliary pass {fn.__name__} skipped after {type(e).__name__}: {str(e)[:150]}")
+            return None
+    return wrapper
 THR = Fr(1, 10 ** 6)
 MAX_PROFILES = 400
 
@@ -182,6 +202,7 @@ class _RecordingEnviron(dict):
     pass
 
 
+@guarded
 def environment_independence(ctx, games, clause, fields=None):
     """The result of a solve must not depend on the process environment: (a) the ambient `decimal` context (a host
     application may have set ROUND_DOWN / ROUND_HALF_UP / a small precision), (b) environment variables.  For (b)
@@ -301,6 +322,7 @@ def environment_independence(ctx, games, clause, fields=None):
                         return
 
 
+@guarded
 def described_at_solve_time(ctx, games, clause, fields=None):
     """The game that is solved is the description the object holds WHEN solve() is called: the caller may build the
     object first and complete / correct its final states afterwards — by editing the list it passed in, or by
@@ -360,6 +382,7 @@ def described_at_solve_time(ctx, games, clause, fields=None):
                     return
 
 
+@guarded
 def odd_label_invariance(ctx, games, clause, rng, fields=None):
     """Action names are arbitrary strings: renaming them consistently to strings that contain format / template /
     quoting characters ({north}, %s, quotes, backslash, newline) changes the strategies only by the renaming and
@@ -390,6 +413,7 @@ def odd_label_invariance(ctx, games, clause, rng, fields=None):
                 return
 
 
+@guarded
 def shared_rows_invariance(ctx, games, clause, rng, fields=None):
     """A description may use ONE list object as the transition row of several states (`row = [...]` placed at two
     indices, `[row] * 2`): that is the same game as the description with equal but separate rows, and the result
